@@ -33,7 +33,7 @@ TCase == /\ Is("case")
          /\ waiting' = FALSE /\ reading' = FALSE /\ gen' = 0
          /\ mpc' = "refresh" /\ mnext' = "wait" /\ mrd' = <<>> /\ mgen' = 0
          /\ apc' = [a \in Aux |-> "idle"] /\ agen' = [a \in Aux |-> 0] /\ started' = 0
-         /\ line' = <<>> /\ sched' = <<>>
+         /\ line' = <<>> /\ sched' = <<>> /\ garbage' = FALSE /\ mrdg' = FALSE
          /\ Mark
 
 TEnv == /\ Is("env") /\ Quiescent
